@@ -634,10 +634,10 @@ class KnownValue(Value):
         try:
             return hash((type(self.val), self.val))
         except TypeError:
-            # If the value is not directly hashable, hash it by identity instead. This breaks
-            # the rule that x == y should imply hash(x) == hash(y), but hopefully that will
-            # be fine.
-            return hash((type(self.val), id(self.val)))
+            # If the value is not directly hashable, hash only its type. __eq__ compares
+            # such values by equality, not identity, and x == y must imply
+            # hash(x) == hash(y), or equal literals are not merged when values are united.
+            return hash(type(self.val))
 
     def __str__(self) -> str:
         if self.val is None:
